@@ -110,7 +110,14 @@ func (g *c08gen) failStmt() (string, string) {
 			return fmt.Sprintf("UPDATE tv SET n = 5, id = 10 / (id - %d);", kt), ""
 		}
 	}
-	switch g.r.Intn(26) {
+	switch g.r.Intn(28) {
+	case 26:
+		// wrong row length in a row whose values come from cells of another table
+		o := map[string]string{"t0": "t1", "t1": "t0"}[t]
+		return fmt.Sprintf("INSERT INTO %s (id, n, s) VALUES (411, 1, 'a'), (412, (SELECT n FROM %s WHERE id = 1), (SELECT s FROM %s WHERE id = 2), 'extra');", t, o, o), ""
+	case 27:
+		o := map[string]string{"t0": "t1", "t1": "t0"}[t]
+		return fmt.Sprintf("REPLACE INTO %s (id, n, s) USING (id) VALUES (1, (SELECT n FROM %s WHERE id = 2), (SELECT s FROM %s WHERE id = 1), (SELECT s FROM %s WHERE id = 2));", t, o, o, t), ""
 	case 22:
 		// multi-table DELETE: the first target is fine, a later one cannot be changed
 		o := map[string]string{"t0": "t1", "t1": "t0"}[t]
